@@ -187,7 +187,7 @@ class E5:
     def _outcome(self, f, p):
         r = p.env.get(0, TOP)
         return {"kind": "return", "result": r, "ops": list(p.ops), "written": p.written, "first": p.first, "trace": p.trace, "fn": f.key,
-                "toks": list(p.toks)}
+                "toks": list(p.toks), "slot": p.slot}
 
     def _assign(self, f, p, s):
         lhs, rv = s["lhs"], s["rv"]
@@ -375,7 +375,7 @@ class E5:
         if key == "std::option::Option::is_none" and argv and argv[0] is not TOP and argv[0][0] == "opt":
             return done(("i", 0 if argv[0][1] == 1 else 1))
         if key in ("saphyr_parser::parser::Event::empty_scalar", "saphyr_parser::parser::Event::empty_scalar_with_anchor"):
-            return done(("event", "Scalar", ()))
+            return done(("event", "Scalar", ("empty",)))
         if key in self.handlers and key != f.key or (key in self.handlers and key == f.key):
             cargs = []
             for a in argv[1:]:
